@@ -43,8 +43,9 @@ MODELLED = ('layer B of table.py / row.py / element_cached.py (TableB.v): _tmap,
             'the 15 mutators of C01 with their cache resets and incremental / recomputed map updates (set/insert/delete_item_in_vault, insert_map_once at the end, '
             '_compute_table_cache), in-place Table.set_cell through the cached wrapper; reads size get_value get_cell get_row_values get_values get_column_values '
             'get_row().width get_values(area) get_row get_cell(keep repeat) traverse get_column columns; the `repeated` setters of live rows / cells (repaired, F8). '
-            'NOT modelled: rstrip, optimize_width, transpose, set_span, row / column groups and header rows, Column.repeated on live columns.')
-KINDS = ['empty', 'prefilled', 'rle', 'rle', 'sample']
+            'TableBx.v / TableBspan.v: rstrip, optimize_width, transpose (end = fresh parse), set_span / del_span (reads through the cached wrappers, then the OSetLines write), '
+            'Row.rstrip and the Row mutators through a live row handle, Column.repeated on the live column returned by append_column. NOT modelled: row / column groups and header rows (exercised).')
+KINDS = ['empty', 'prefilled', 'rle', 'rle', 'sample', 'wrapped']
 
 
 def _worker(job):
@@ -213,9 +214,9 @@ def run(tier, seed, replay=None):
     fid = sum(1 for c in bad.values() if c == 9); c01 = sum(1 for c in bad.values() if c == 8)
     cov = dict(
         trusted_base=TRUSTED, evaluations=steps, histories=len(results), distinct_nontrivial=len(distinct),
-        rule='initial tables {empty, Table(w,h), random run-length shapes written as XML text, tables of tests/samples/*.ods with clamped repeats}; histories of 1-%d mutations of the 22 C01 '
+        rule='initial tables {empty, Table(w,h), random run-length shapes written as XML text, tables of tests/samples/*.ods with clamped repeats, tables with table:table-header-rows / table-rows / table-header-columns / table-columns wrappers and row / column groups (judged on the visible table, without a model step)}; histories of 1-%d mutations of the 22 C01 '
              'entry points (positions around every run boundary of the current state, the edge, beyond, negative; repeats 1-4), each preceded with probability 1/2 by one or two cache-filling reads '
-             '(get_row / get_cell with clone true or false, traverse, get_column, columns, get_value, get_row_values, get_cell) and replaced with probability 0.1 by a `repeated` setter on a live row / cell and with probability 0.08 by an operation outside the modelled alphabet (rstrip, optimize_width, transpose, Row calls through a live row handle: judged by coherence, fresh parse and twin only); '
+             '(get_row / get_cell with clone true or false, traverse, get_column, columns, get_value, get_row_values, get_cell) and replaced with probability 0.14 by a call on a live handle (`repeated` setter of a live row / cell, Row.append_cell / set_cell / insert_cell / delete_cell on a live row) and with probability 0.1 by one of rstrip, optimize_width, transpose, set_span, del_span (aimed at spans made earlier), Row.rstrip on a live row, the `repeated` setter of the live column returned by append_column (all with a model step; Row.rstrip(aggressive=True) and every step on a table with wrappers are judged by coherence, fresh parse, twin, expansion and reload only); '
              'after EVERY step: raw lxml abstraction, private state, the same call on a fresh parse, 9-13 observation reads live and fresh, every 3rd step Document.save -> reopen; corpus first. '
              'distinct_nontrivial = distinct (pre-state run shape, step, cached wrappers) where the XML changed, or a mutation ran while row wrappers were cached, or the observation reads changed the private state'
              % (6 if tier == 'quick' else 9),
